@@ -613,6 +613,15 @@ type Solver struct {
 	restarts int
 }
 
+// StartSolverTO starts a solver whose per-check time limit (where it must be given on the
+// command line: cvc5) is limit.
+func StartSolverTO(k SolverKind, limit time.Duration) (*Solver, error) {
+	if k.Name == SolverCVC5.Name && limit > 0 {
+		k.Cmd = append(append([]string{}, k.Cmd...), fmt.Sprintf("--tlimit-per=%d", int(limit/time.Millisecond)))
+	}
+	return StartSolver(k)
+}
+
 func StartSolver(k SolverKind) (*Solver, error) {
 	s := &Solver{kind: k}
 	if err := s.start(); err != nil {
